@@ -120,21 +120,31 @@ Qed.
 Lemma tbl_set_sv st sv : tbl_eq (set_sv st sv) st. Proof. repeat split. Qed.
 Lemma tbl_set_hz st : tbl_eq (set_hz st) st. Proof. repeat split. Qed.
 
+Lemma tbl_set_pend st l : tbl_eq (set_pend st l) st. Proof. repeat split. Qed.
+Lemma tbl_set_busy st b : tbl_eq (set_busy st b) st. Proof. repeat split. Qed.
+
 Lemma tbl_kill st c : tbl_eq (kill st c) st.
 Proof.
-  unfold kill. eapply tbl_trans; [apply tbl_set_cl; reflexivity|apply tbl_set_sv].
+  unfold kill. eapply tbl_trans; [apply tbl_set_cl; destruct (st_busy st); reflexivity|].
+  eapply tbl_trans; [apply tbl_set_sv|]. destruct (st_busy st); [apply tbl_set_hz|apply tbl_refl].
 Qed.
+Lemma tbl_close_chan st x : tbl_eq (close_chan st x) st.
+Proof. unfold close_chan. destruct (memb x (st_pend st)); [apply tbl_refl|apply tbl_set_pend]. Qed.
+Lemma tbl_fold_kill l : forall st, tbl_eq (fold_left kill l st) st.
+Proof.
+  induction l as [|x l IH]; intros st; cbn; [apply tbl_refl|].
+  eapply tbl_trans; [apply IH|apply tbl_kill].
+Qed.
+Lemma tbl_flush st : tbl_eq (flush st) st.
+Proof. unfold flush. eapply tbl_trans; [apply tbl_fold_kill|apply tbl_set_pend]. Qed.
 Lemma tbl_send_to st x m : tbl_eq (send_to st x m) st.
 Proof.
   unfold send_to. destruct (negb (sv_alive (st_sv st) x)); [apply tbl_refl|].
-  destruct (k_closed (st_cl st x)); [apply tbl_kill|]. apply tbl_set_cl. reflexivity.
+  destruct (memb x (st_pend st)); [apply tbl_refl|].
+  destruct (k_closed (st_cl st x)); [apply tbl_close_chan|]. apply tbl_set_cl. reflexivity.
 Qed.
 Lemma tbl_push_sink u p d st x : tbl_eq (push_sink u p d st x) st.
-Proof.
-  unfold push_sink. destruct (sv_alive (st_sv st) x && k_closed (st_cl st x)).
-  - eapply tbl_trans; [apply tbl_set_hz|apply tbl_send_to].
-  - apply tbl_send_to.
-Qed.
+Proof. apply tbl_send_to. Qed.
 Lemma tbl_update_dependants st x : tbl_eq (update_dependants st x) st.
 Proof.
   unfold update_dependants. generalize (u_sinks x) st. intros l. induction l as [|s l IH]; intros st0; cbn.
@@ -165,11 +175,13 @@ Lemma tbl_srv_step st c : tbl_eq (fst (srv_step st c)) st.
 Proof.
   unfold srv_step. destruct (negb (sv_alive (st_sv st) c)); [apply tbl_refl|].
   destruct (k_c2s (st_cl st c)) as [|r rest] eqn:E.
-  - destruct (k_closed (st_cl st c)); cbn; [apply tbl_kill|apply tbl_refl].
+  - destruct (k_closed (st_cl st c)); cbn; [|apply tbl_refl].
+    eapply tbl_trans; [apply tbl_flush|apply tbl_close_chan].
   - match goal with |- context [handle_req ?s c r] => pose proof (tbl_handle_req s c r) as H;
       destruct (handle_req s c r) as [st2 rep] end.
-    cbn in H. cbn.
+    cbn in H. cbn [fst].
     assert (tbl_eq st2 st) as H2.
-    { eapply tbl_trans; [exact H|]. apply tbl_set_cl. reflexivity. }
+    { eapply tbl_trans; [exact H|]. eapply tbl_trans; [apply tbl_set_busy|]. apply tbl_set_cl. reflexivity. }
+    eapply tbl_trans; [apply tbl_flush|]. eapply tbl_trans; [apply tbl_set_busy|].
     destruct rep; [eapply tbl_trans; [apply tbl_send_to|exact H2]|exact H2].
 Qed.
